@@ -393,3 +393,25 @@ def run_arith(repo, rep, prop):
                              'passes the absolute column) -- recorded as a note, not a finding (DESIGN L.f)' % (
                                  name, c[3].get('column')))
     rep.count(sum(len(b.paths) for m in ms.values() for b in m.branches))
+
+    # ---------------------------------------------------------------- L.w the requested width / ribbon reach the layout
+    # (the pformat-level sentences of C05/C06 speak about the width the caller asked for, through any entry point and
+    # through the configured defaults): reuse the wiring rules of C18 for these two settings
+    from engine.report import Report
+    from . import c18
+    sub = Report('C18', rep.tier, rep.seed, quiet=True, write=False)
+    c18.run(repo, sub)
+    n = 0
+    for i in sub.instances:
+        if 'width' in i.construct or i.construct in ('name-sets-agree', 'merge:explicit-overrides-default',
+                                                      'merge:defaults-read-at-call-time', 'set_default_config:rebinds-global',
+                                                      'merge:iterates-default-items'):
+            n += 1
+            if i.verdict == 'holds':
+                rep.ok(prop + '.L.w', i.construct, i.where, i.detail)
+            elif i.verdict == 'VIOLATED':
+                rep.fail(prop + '.L.w', i.construct, i.where, 'the width / ribbon_width the caller configured does not reach the '
+                         'layout unchanged: ' + i.detail)
+            else:
+                rep.undecided(prop + '.L.w', i.construct, i.where, i.detail)
+    rep.floor(prop + '.L.w', n, 12)
